@@ -1559,6 +1559,13 @@ class Lowerer:
             m = re.match(r'^\(\*(.*)\)$', txt)
             if m and balanced(m.group(1)):
                 return m.group(1)
+            if re.match(r'^std_(min|max)_\w+\(', txt) and balanced(txt):
+                # std::min/max return a reference in C++; the one-line C helpers return the value: bind it to a temporary
+                t = self.ty(s['type']).noref()
+                f = self.cur
+                name = '__tmp%d' % len(f.tmps)
+                f.tmps.append(self.cdecl(t, name))
+                return '(%s = %s, &%s)' % (name, txt, name)
             return '&' + txt
         t = self.ty(s['type']).noref()
         return self.temp_addr(s, t)
